@@ -147,6 +147,7 @@ EFFECT_CLASSES = [
     ("time", re.compile(r"^std::time::|^core::time::|Instant|SystemTime")),
     ("thread", re.compile(r"^std::thread::|^std::sync::|^core::sync::atomic|^std::cell::|^core::cell::|thread_local|^std::sys::")),
     ("random", re.compile(r"^rand::|^rand_core::|getrandom|RandomState|^std::hash::random|^std::collections::hash")),
+    ("uninit", re.compile(r"::set_len$|MaybeUninit.*::assume_init|^std::mem::uninitialized$|^core::mem::uninitialized$|^std::mem::zeroed$|^std::alloc::alloc$|^alloc::alloc::alloc$")),
     ("reflect", re.compile(r"type_id|^std::any::|^core::any::|size_of_val|^std::mem::transmute|^core::intrinsics::transmute|type_name")),
     ("alloc_addr", re.compile(r"::addr$|expose_provenance|::as_ptr as usize|::align_to(_mut)?$|::align_offset$|::is_aligned(_to)?$")),
 ]
